@@ -46,7 +46,9 @@ structure State where
   queue : List (Option Item) := []
   workers : List W
   mainPc : MainPc := .joinProd
-  /-- items whose batch went into the result map, in the order of the lock acquisitions -/
+  /-- items whose worker ACQUIRED the result-map mutex, in the order of the acquisitions (an item is
+  listed before its first entry is written; what has been written is `log`. Unless a worker dies
+  inside `add_results` the two agree: `C02_merged_written_unless_poisoned`) -/
   merged : List Item := []
   rejected : List Item := []
   lost : List Item := []
